@@ -2,6 +2,7 @@
 From Coq Require Import List Bool String Arith.
 Import ListNotations.
 From HV Require Import lib.Harness model.Schema spec.SchemaS proofs.SchemaP proofs.SchemasP gen.Schemas.
+From HV Require Import model.SchemaSeq model.SchemaFiles spec.SchemaSeqS proofs.SchemaSeqP gen.SchemaOrders.
 Open Scope string_scope.
 
 (* ---- proved once, for ALL schemas, documents and recursion budgets ---- *)
@@ -62,6 +63,34 @@ Theorem version_strings_agree :
   versions_agree_b serialization_version model_versions published_files generated_files = true.
 Proof. exact versions. Qed.
 
+(* ---- several schema-defining rebuilds in one process (scripts/generate_schema.py runs ONE order of them) ---- *)
+
+(* proved once, for every start state and every history: after Root._pydantic_rebuild(c) the operation/type classes
+   and the root carry c whatever was rebuilt before (another root with an equal configuration included), and
+   nothing else changes (model/SchemaSeq.v mirrors tys.model_rebuild over ops_classes + the root) *)
+Theorem C17_rebuild_history_independent : forall st0, HistoryIndependent (run_steps st0).
+Proof. exact model_history_independent. Qed.
+Theorem C17_rebuild_others_untouched : forall st0, OthersUntouched (run_steps st0).
+Proof. exact model_others_untouched. Qed.
+(* a process that only ever rebuilds one root defines that root's published file, for every history *)
+Theorem C17_single_family_history_defines_published : forall pub f h c,
+  forallb (fun s => family_eqb (fst s) f) h = true ->
+  expected pub (run_steps init (h ++ [(f, c)])%list) f c = pub f c.
+Proof. exact expected_single_family. Qed.
+(* re-proved on every run: the HUGR files are expected unchanged in every state ... *)
+Theorem C17_hugr_file_history_independent : forall st c, expected published st FHugr c = published FHugr c.
+Proof. exact hugr_file_history_independent. Qed.
+(* ... and the schema written after EVERY step of every history of gen/SchemaOrders.v (each pair alone in a fresh
+   process; all 16 ordered pairs as consecutive steps) is the expected file up to norm + schema_equiv, hence
+   accepts the same documents *)
+Theorem C17_rebuild_orders_define_expected_schemas : forallb (run_ok published init) order_runs = true.
+Proof. exact orders_ok. Qed.
+Theorem C17_rebuild_orders_same_documents : Forall (RunSame published init) order_runs.
+Proof. exact orders_same. Qed.
+Theorem C17_rebuild_orders_cover_all_transitions :
+  singles_covered (map (map fst) order_runs) && transitions_covered (map (map fst) order_runs) = true.
+Proof. exact orders_cover. Qed.
+
 Print Assumptions C17_norm_preserves_validation.
 Print Assumptions C17_schema_equiv_preserves_validation.
 Print Assumptions C17_same_documents_accepted.
@@ -70,3 +99,7 @@ Print Assumptions C17_hugr_strict_same_documents.
 Print Assumptions C17_testing_same_documents.
 Print Assumptions C17_testing_strict_same_documents.
 Print Assumptions version_strings_agree.
+Print Assumptions C17_rebuild_history_independent.
+Print Assumptions C17_single_family_history_defines_published.
+Print Assumptions C17_hugr_file_history_independent.
+Print Assumptions C17_rebuild_orders_same_documents.
